@@ -33,6 +33,9 @@ def cfg_fft(tier, seed):
                 pick = [None] + rng.sample(shapes[1:], min(len(shapes) - 1, 2 if tier == 'quick' else 6))
                 for shp in pick:
                     out.append({'N': [Nr, Nc], 'n': [nr, nc], 'os': os, 'shape': None if shp is None else list(shp), 'kind': 'value'})
+                    if shp is None and nc % 2 == 0 and Nr * Nc <= 16:
+                        # the same pupil as two equal-shape segments (several input fields)
+                        out.append({'N': [Nr, Nc], 'n': [nr, nc], 'os': os, 'shape': None, 'kind': 'value', 'seg': True})
                 out.append({'N': [Nr, Nc], 'n': [nr, nc], 'os': os, 'shape': [Nr // os + 1, Nc // os], 'kind': 'oversize'})
                 if Nr // os >= 2:
                     out.append({'N': [Nr, Nc], 'n': [nr, nc], 'os': os, 'shape': [Nr // os - 1, Nc // os + 1], 'kind': 'oversize'})
@@ -50,7 +53,12 @@ def _wave(W, cfg, opd=True):
     dx = (W.real('dxr', pos=True), W.real('dxc', pos=True))
     du = (lam * f * os / (Nr * dx[0]), lam * f * os / (Nc * dx[1]))
     kw = {'opd': W.reals('o', (nr, nc))} if opd else {}
-    pupil = lt.Pupil(amplitude=A, pixelscale=dx, focal_length=f, mask=rnp.ones((nr, nc), dtype=int), **kw)
+    mask = rnp.ones((nr, nc), dtype=int)
+    if cfg.get('seg'):
+        mask = rnp.zeros((2, nr, nc), dtype=int)
+        mask[0, :, :nc // 2] = 1
+        mask[1, :, nc // 2:] = 1
+    pupil = lt.Pupil(amplitude=A, pixelscale=dx, focal_length=f, mask=mask, **kw)
     return lt, pupil, lam, f, dx, du
 
 
